@@ -98,6 +98,12 @@ def gen_cases(tier, seed):
         for v in ('vlst', 'vdct', 'vset', 'vobj', 'vtl', 'vfl', 'vsh'):
             for fn in ('in_a', 'in_static', 'out_a', 'in_hdl'):
                 yield {'prog': {'params': {'copy': True}, 'steps': [{'fn': fn, 'a': ['x1'], 'ret': v}, {'do': 'mut'}, {'fn': 'out_b', 'a': ['x2'], 'ret': 'v1'}]}, 'cas': kind}
+        # the service re-uses / mutates an object after passing it to an intercepted output (recorded and playback outputs must agree)
+        for v in ('vlst', 'vdct', 'vobj', 'vtl'):
+            for copy_on in (False, True):
+                for fn in ('out_a', 'out_static', 'out_hdl'):
+                    yield {'prog': {'params': {'copy': copy_on}, 'steps': [{'fn': fn, 'a': [v], 'ret': 'v1'}, {'do': 'mutarg'}, {'fn': 'in_a', 'a': ['x1'], 'ret': 'vs'}]},
+                           'cas': kind, 'no_ref_outputs': True}
         # long tails
         for fn in ('out_a', 'out_static', 'out_hdl'):
             for n in (9, 10, 11, 12):
@@ -186,7 +192,7 @@ def _run(case, prog, box):
         d = sorted(str(k) for k in set(rec_map) | set(play_map) if rec_map.get(k) != play_map.get(k))
         viols.append(viol('replay:outputs-differ', 'playback outputs differ from recorded outputs at %s (cassette %s)' % (d[:4], case['cas']),
                           {k: str(rec_map.get(eval(k)))[:150] for k in d[:3]}, {k: str(play_map.get(eval(k)))[:150] for k in d[:3]}))
-    if rec_map != exp:
+    if rec_map != exp and not case.get('no_ref_outputs'):
         d = sorted(str(k) for k in set(rec_map) | set(exp) if rec_map.get(k) != exp.get(k))
         viols.append(viol('record:outputs-differ-from-reference', 'recorded outputs differ from the reference at %s' % d[:4],
                           {k: str(exp.get(eval(k)))[:150] for k in d[:3]}, {k: str(rec_map.get(eval(k)))[:150] for k in d[:3]}))
